@@ -243,6 +243,24 @@ class Resolver:
                 out[q] = w
         return out
 
+    def _family(self, cls: str) -> set:
+        """the class, its package-defined bases and subclasses"""
+        bases = {n: [b.id if isinstance(b, ast.Name) else getattr(b, "attr", None) for b in c.bases] for n, c in self.repo.classes.items()}
+        fam = {cls}
+        changed = True
+        while changed:
+            changed = False
+            for c, bs in bases.items():
+                if c in fam:
+                    for b in bs:
+                        if b in bases and b not in fam:
+                            fam.add(b)
+                            changed = True
+                elif any(b in fam for b in bs):
+                    fam.add(c)
+                    changed = True
+        return fam
+
     def call_sites(self, target_qual: str):
         """All call sites in the package resolving to target_qual: [(caller qual, call)]."""
         # a call through a name computed at run time (`getattr(obj, name)(...)`) may be a call of this function
@@ -251,6 +269,15 @@ class Resolver:
             for c in walk_no_nested(fn):
                 if isinstance(c, ast.Call) and isinstance(c.func, ast.Call) and isinstance(c.func.func, ast.Name) and c.func.func.id == "getattr" and len(c.func.args) >= 2 \
                         and not (isinstance(c.func.args[1], ast.Constant) and isinstance(c.func.args[1].value, str)):
+                    obj = c.func.args[0]
+                    owner = None
+                    if isinstance(obj, ast.Name) and obj.id in self.repo.classes:
+                        owner = obj.id
+                    elif isinstance(obj, ast.Name) and obj.id in ("self", "cls") and "." in q:
+                        owner = q.split(".")[0]
+                    tcls = target_qual.split(".")[0] if "." in target_qual else None
+                    if owner is not None and tcls is not None and owner != tcls and tcls not in self._family(owner):
+                        continue  # a method of another class is picked there
                     raise AnalysisError(f"{q} calls a method chosen at run time (`{unparse(c.func)[:60]}`): the callers of {short_} are not visible")
         out = []
         for q in self.repo.functions:
